@@ -19,7 +19,7 @@ RULE = ("C01's schemas and reachable states (a valid prefix history), then faili
         "fields/include_field.py during loads/load; whenever such an operation raises, M-same compares values at all "
         "depths, user-defined flags and identities of nested configurations before/after; non-trivial = >= 2 "
         "raising listed operations judged; distinct = distinct (schema, history)")
-REQUIRED = ("dotted_continuations_into_nested_dicts_rejected", "derived_containers_rejected_by_field_validator", "list_reuse_rejections", "wrong_root_documents_rejected", "incomplete_objects_rejected", "incomplete_maps_rejected", "dotted_into_dict_rejections", "corrupt_include_files", "same_checks", "raised:set", "raised:set-sub", "raised:ctor", "raised:listop", "raised:dictop",
+REQUIRED = ("rejected_replacements_through_an_equal_key_of_another_type", "dotted_continuations_into_nested_dicts_rejected", "derived_containers_rejected_by_field_validator", "list_reuse_rejections", "wrong_root_documents_rejected", "incomplete_objects_rejected", "incomplete_maps_rejected", "dotted_into_dict_rejections", "corrupt_include_files", "same_checks", "raised:set", "raised:set-sub", "raised:ctor", "raised:listop", "raised:dictop",
             "raised:loads-unparsable", "raised:loads-include", "failpoint_injections_raised")
 ASSUMPTIONS = ["only the kinds of operation listed in the property are judged (a tree that parses but fails validation "
                "half way, extend / slice / update with a bad element are outside the statement)",
@@ -41,6 +41,11 @@ def generate(rng, ctx):
             d = nd["params"].get("default")
             if isinstance(d, (list, dict)) and len(d) > 2:
                 nd["params"].pop("default")
+    # feature flags in some sections (a document may switch a section off or on)
+    for p0, nd in history.all_paths(schema):
+        if nd["kind"] == "schema" and "[]" not in p0 and rng.random() < 0.5 and all(ch["key"] != "enabled0" for ch in nd["fields"]):
+            nd["fields"].insert(rng.randrange(len(nd["fields"]) + 1), {"kind": "field", "key": "enabled0", "family": "flag",
+                                                                         "params": {"default": rng.random() < 0.5}})
     # a typed dict of typed dicts (dotted paths may continue into it, or be taken for a key)
     if rng.random() < 0.5:
         inner = {"kind": "field", "family": "dict", "params": {}, "keyf": {"kind": "field", "family": "str", "params": {}},
@@ -209,6 +214,17 @@ def targeted_ops(rng, schema, env):
                 ops.append({"op": "listop", "path": path, "name": rng.choice(["insert", "insert", "setitem", "append"]),
                             "i": rng.choice([-1, -2, -3, 1, 2, 5, 99]), "n": 0, "xs": [], "iter": "list", "a": None, "b": None, "x": t,
                             "as_config": True, "incomplete_object": True})
+        if nd["family"] == "dict" and nd.get("keyf") is None and nd.get("valf") and nd["valf"]["family"] not in ("any", "secure", "list", "dict"):
+            # keys of any type: an entry is addressed through an equal key of another type (1 / 1.0 / True) and the new
+            # value is rejected
+            vf = nd["valf"]
+            g1, g2 = gen.one_value(rng, vf, "valid", env), gen.one_value(rng, vf, "valid", env)
+            bad = gen.one_value(rng, vf, "invalid", env)
+            if g1 is not None and g2 is not None and model.accepts(vf, bad, env)[0] is False:
+                ops.append({"op": "set", "route": "attr", "path": path, "value": {1: g1, 0: g2, "x": g1}})
+                for k in (True, 1.0, False, 0.0):
+                    ops.append({"op": "dictop", "path": path, "name": "setitem", "kv": [k, bad], "pairs": [[k, bad]], "kind": "dict",
+                                "equal_key_other_type": True})
         if nd["family"] == "dict" and nd.get("valf") and nd["valf"]["family"] not in ("any", "secure") and rng.random() < 0.8:
             kf, vf = nd.get("keyf"), nd["valf"]
 
@@ -256,6 +272,8 @@ def run(case, ctx, res):
         if out is None:
             res.count("ops_skipped")
             continue
+        if op.get("equal_key_other_type") and out["raised"] is not None:
+            res.count("rejected_replacements_through_an_equal_key_of_another_type")
         if op.get("deep") and out["raised"] is not None:
             res.count("dotted_continuations_into_nested_dicts_rejected")
         if out.get("grown_copy") and out["raised"] is not None:
